@@ -128,6 +128,44 @@ Proof.
   apply (interface_isometry pre (fun p => e3 c p i 0%nat) (fun p => e3 c p i 0%nat) Hch Hall).
 Qed.
 
+(* ---- the left interface projector A = U U^H (C16), as its kernel K(i, j) = sum_p L(i)[p] conj(L(j)[p]) on the leading modes:
+   from the orthogonality of the gauge alone it is Hermitian, idempotent, and fixes every tensor whose leading cores are these cores ---- *)
+Definition kernelL (x : tt R) (i j : list nat) : R :=
+  sum_n (endrank 1 x) (fun p => chainM (slices x i) 0%nat p * rconj (chainM (slices x j) 0%nat p)).
+
+Theorem kernelL_hermitian (x : tt R) i j : kernelL x j i = rconj (kernelL x i j).
+Proof. unfold kernelL. rewrite sum_n_conj. apply sum_n_ext. intros p _. rewrite conj_mul, conj_inv. ring. Qed.
+
+Theorem kernelL_idempotent (x : tt R) i k : linked 1 x -> Forall left_orth x ->
+  sum_idx (shape x) (fun j => kernelL x i j * kernelL x j k) = kernelL x i k.
+Proof.
+  intros Hl Hall. unfold kernelL. set (e := endrank 1 x).
+  rewrite (sum_idx_ext (shape x) _ (fun j => sum_n e (fun p => sum_n e (fun q =>
+      (chainM (slices x i) 0%nat p * rconj (chainM (slices x k) 0%nat q)) * (rconj (chainM (slices x j) 0%nat p) * chainM (slices x j) 0%nat q))))).
+  2:{ intros j _ _. rewrite <- sum_n_scal_r. apply sum_n_ext. intros p _. rewrite <- sum_n_scal_l. apply sum_n_ext. intros q _. ring. }
+  rewrite sum_idx_sum_n_swap. apply sum_n_ext. intros p Hp.
+  rewrite sum_idx_sum_n_swap.
+  rewrite (sum_n_ext e _ (fun q => delta p q * (chainM (slices x i) 0%nat p * rconj (chainM (slices x k) 0%nat q)))).
+  2:{ intros q Hq. rewrite sum_idx_scal_l. rewrite (interface_orthonormal x p q Hl Hall Hp Hq). ring. }
+  rewrite sum_n_delta_l by exact Hp. reflexivity.
+Qed.
+
+(* A x = x for a tensor whose leading part is x's own orthogonal prefix: any coefficients t(p) on the interface *)
+Theorem kernelL_fixes (x : tt R) (t : nat -> R) i : linked 1 x -> Forall left_orth x ->
+  sum_idx (shape x) (fun j => kernelL x i j * sum_n (endrank 1 x) (fun q => chainM (slices x j) 0%nat q * t q))
+  = sum_n (endrank 1 x) (fun p => chainM (slices x i) 0%nat p * t p).
+Proof.
+  intros Hl Hall. unfold kernelL. set (e := endrank 1 x).
+  rewrite (sum_idx_ext (shape x) _ (fun j => sum_n e (fun p => sum_n e (fun q =>
+      (chainM (slices x i) 0%nat p * t q) * (rconj (chainM (slices x j) 0%nat p) * chainM (slices x j) 0%nat q))))).
+  2:{ intros j _ _. rewrite <- sum_n_scal_r. apply sum_n_ext. intros p _. rewrite <- sum_n_scal_l. apply sum_n_ext. intros q _. ring. }
+  rewrite sum_idx_sum_n_swap. apply sum_n_ext. intros p Hp.
+  rewrite sum_idx_sum_n_swap.
+  rewrite (sum_n_ext e _ (fun q => delta p q * (chainM (slices x i) 0%nat p * t q))).
+  2:{ intros q Hq. rewrite sum_idx_scal_l. rewrite (interface_orthonormal x p q Hl Hall Hp Hq). ring. }
+  rewrite sum_n_delta_l by exact Hp. reflexivity.
+Qed.
+
 End OrthP.
 
 (* ---- the mirror image: trains read from the right (rl_orthogonal) ---- *)
